@@ -6,7 +6,7 @@ W=$(mktemp -d /tmp/neutralw.XXXX); rmdir "$W"; git -C /repo worktree add -q --de
 trap 'git -C /repo worktree remove --force "$W" >/dev/null 2>&1' EXIT
 fail=0
 for d in /verif/neutral/*.diff; do
-  r=$(/verif/tools/try_neutral.sh "$W" "$d" 2>&1)
+  r=$(CL=${CL:-/verif/bin/cachelint} /verif/tools/try_neutral.sh "$W" "$d" 2>&1)
   if echo "$r" | grep -q "all 18 green"; then echo "ok   $(basename $d)"; else fail=1; echo "FAIL $(basename $d)"; echo "$r" | head -8; fi
 done
 exit $fail
